@@ -86,7 +86,9 @@ class LossEnv:
             ents += [Poly.atom(('X', j, frozenset({rows}))) for j in range(d)]
         pin = AT((rows, ncol), np.array(ents, dtype=object))
         val = AT((rows, m), np.array([Poly.atom(('F', name, k, frozenset({rows}))) for k in range(m)], dtype=object))
-        eqp = {k: AT((rows, 1), np.array([Poly.atom(('P', k, (), frozenset({rows}), False))], dtype=object))
+        # the OBSERVED value of a parameter is a different quantity from the generated (parameter-batch) value of the same key even
+        # when both tables have the same rows: its index path carries the mark 'observed'
+        eqp = {k: AT((rows, 1), np.array([Poly.atom(('P', k, ('observed',), frozenset({rows}), False))], dtype=object))
                for k in (observed_params or [])}
         return {"pinn_in": pin, "val": val, "eq_params": eqp}
 
@@ -242,7 +244,7 @@ class SingleLoss:
     def __init__(self, E, eq_type, net_kind='PINN', d=2, m_u=1, m_res=1, terms=('dyn',), wkind='scalar',
                  eq_keys=('nu',), derivative_keys=None, bc='dirichlet', bc_ret='vector', bc_dim=None,
                  per_facet=None, obs_slice=None, ic_t0=None, net_name='u', unit_weights=False, dyn=None, params=None,
-                 weight_value=None, wkind_terms=('dyn_loss',)):
+                 weight_value=None, wkind_terms=('dyn_loss',), norm_rows="S"):
         self.E, self.eq_type, self.net_kind, self.d, self.m_u, self.m_res = E, eq_type, net_kind, d, m_u, m_res
         self.terms = set(terms)
         d_net = 0 if eq_type == 'ODE' else d
@@ -282,7 +284,7 @@ class SingleLoss:
         else:
             cls = E.cls(E.mod_pde, 'LossPDEStatio' if eq_type == 'statio_PDE' else 'LossPDENonStatio')
             if 'norm' in self.terms:
-                kw['norm_samples'] = batch_x(d, "S")
+                kw['norm_samples'] = batch_x(d, norm_rows)
                 kw['norm_int_length'] = K('L')
             if 'bc' in self.terms:
                 if per_facet is not None:
@@ -443,6 +445,8 @@ class SystemLoss:
 
     def _single(self, k, single_terms, eq_keys):
         sp = self.specs[k]
+        if 'terms' in sp:            # this unknown is subject to some of the system's constraints only
+            single_terms = tuple(t for t in single_terms if t in sp['terms'])
         return SingleLoss(self.E, self.eq_type, self.net_kind, d=self.d, m_u=sp.get('m_u', 1), terms=single_terms, eq_keys=eq_keys,
                           net_name=k, unit_weights=True, bc_dim=sp.get('bc_dim'), obs_slice=sp.get('obs_slice'))
 
